@@ -57,7 +57,7 @@ def active():
 
 
 def is_sym(x):
-    return isinstance(x, (SymInt, SymBool, SymFloat, SymBytesBase, SymFmt))
+    return isinstance(x, (SymInt, SymBool, SymFloat, SymBytesBase, SymFmt, SymRatio))
 
 
 def bv(x, w=W):
@@ -332,6 +332,8 @@ class SymInt:
         return self._divmod(o, True, "%")
 
     def __truediv__(self, o):
+        if RATIO_MODE[0] and isinstance(o, (int, float)) and not isinstance(o, bool) and o > 0:
+            return SymRatio(self, float(o))
         return SymFloat.of(self) / o
 
     def __rtruediv__(self, o):
@@ -475,6 +477,57 @@ class SymInt:
 
     def bit_length(self):
         return ctx().concretize(self).bit_length()
+
+
+# ----------------------------------------------------------------------------
+# SymRatio: the double nearest n/c for a symbolic integer n and a positive constant c,
+# compared through n.  Sound for |n| < 2**31 because rounding is monotone and distinct
+# integers give quotients at least 1/c apart (the strictness lemma is discharged in
+# IEEE arithmetic by C14's `monotone.*` units).  Enabled per unit (RATIO_MODE).
+
+RATIO_MODE = [False]
+
+
+class SymRatio:
+    __slots__ = ("n", "c")
+
+    def __init__(self, n, c):
+        self.n = n
+        self.c = c
+
+    def _other(self, o):
+        if isinstance(o, SymRatio) and o.c == self.c:
+            return o.n
+        raise Inconclusive("comparison of a ratio-abstracted float with a different kind of value")
+
+    def __lt__(self, o):
+        return self.n < self._other(o)
+
+    def __le__(self, o):
+        return self.n <= self._other(o)
+
+    def __gt__(self, o):
+        return self.n > self._other(o)
+
+    def __ge__(self, o):
+        return self.n >= self._other(o)
+
+    def __eq__(self, o):
+        if not isinstance(o, SymRatio):
+            return False if not isinstance(o, (int, float, SymInt, SymFloat)) else self._other(o)
+        return self.n == self._other(o)
+
+    def __ne__(self, o):
+        return Not(self.__eq__(o))
+
+    def __hash__(self):
+        raise Inconclusive("hash of a symbolic float")
+
+    def __format__(self, spec):
+        raise Inconclusive("formatting a symbolic float")
+
+    def __repr__(self):
+        return f"SymRatio({self.n}/{self.c})"
 
 
 # ----------------------------------------------------------------------------
@@ -1432,6 +1485,8 @@ def eval_any(m, x):
         return eval_bool(m, x)
     if isinstance(x, SymFloat):
         return eval_float(m, x)
+    if isinstance(x, SymRatio):
+        return eval_int(m, x.n) / x.c
     if isinstance(x, SymBytesBase):
         return eval_bytes(m, x)
     if isinstance(x, SymFmt):
